@@ -132,7 +132,11 @@ HdrAtoms == {WordAtom(GOOS), WordAtom(OtherOS), WordAtom(GOARCH), WordAtom(Other
              GoAtom(1), GoAtom(Release), GoAtom(Release + 1)}
 E0 == {Atom(a) : a \in HdrAtoms}
 E1 == E0 \cup {Not(x) : x \in E0} \cup {And(l, r) : l, r \in E0} \cup {Or(l, r) : l, r \in E0}
-TagSets == SUBSET {"foo", "bar"}
+\* tag sets given through Options.BuildTags / yaegi:tags: plain words, and words that are also the
+\* name of an operating system or architecture other than the target's (go/build: a word of the tag
+\* set is satisfied whatever the word is: -tags windows selects x_windows.go on linux)
+TagSets == SUBSET {"foo", "bar"} \cup {{OtherOS}, {OtherArch}, {"foo", OtherOS}, {OtherOS, OtherArch}}
+NameTagSets == {{}, {OtherOS}, {OtherArch}, {OtherOS, OtherArch}}
 Terms  == {Term(a, neg) : a \in HdrAtoms, neg \in BOOLEAN}
 SeqsUpTo2(S) == {<<x>> : x \in S} \cup {<<x, y>> : x, y \in S}
 
@@ -150,6 +154,10 @@ InitNames ==
     /\ case \in {MkCase(pre, els, test, dot, NoHeader, load, {}, {}) :
                    pre \in Pres, els \in ElsUpTo(3), test \in BOOLEAN, dot \in BOOLEAN,
                    load \in {"import", "test"}}
+             \cup
+             \* names of up to two elements under tag sets that hold OS / architecture words
+             {MkCase(pre, els, test, FALSE, NoHeader, "import", ot, {}) :
+                   pre \in Pres, els \in ElsUpTo(2), test \in BOOLEAN, ot \in NameTagSets \ {{}}}
     /\ verdict = "?"
 
 \* (b) every header with an expression of depth <= 1, in the //go:build syntax,
